@@ -1,8 +1,8 @@
 package ir
 
 import (
-	"go/types"
 	"go/token"
+	"go/types"
 	"regexp"
 	"sort"
 	"strings"
